@@ -27,7 +27,8 @@ RULE = ('Sandbox = root/outside/{canary file, canary dir/file} + root/store/ wit
         '(delete); an operation that raises may have created at most the empty key directory; any data read through a returned '
         'handle must come from a file whose real path is directly inside D; exists/find_keys change nothing. Any exception type is '
         'an acceptable rejection. Non-trivial = the key or filename contains a separator, dot segment, absolute prefix or names a '
-        'symlink. Distinct = hash of (layout, operations). Thorough tier only: the same oracle inside an atheris/libFuzzer target (bytes '
+        'symlink. Distinct = hash of (layout, operations). A quarter of the cases hold a focused history: a key is used, '
+        'its name becomes a symlink, the same key is used again on the same storage object. Thorough tier only: the same oracle inside an atheris/libFuzzer target (bytes '
         '-> layout bits + operations via FuzzedDataProvider, sandbox rebuilt per iteration, empty corpus, 4 x 150 s); its execution '
         'counts are reported under coverage.extra (they are not part of evaluations/distinct_nontrivial).')
 ASSUMPTIONS = ['"the one the key names": for a key that is a symlink resolving to another direct child of the storage dir, that child is taken as the named directory',
